@@ -15,6 +15,7 @@
 From Coq Require Import List NArith Bool Arith.
 From Atlas Require Import Base.Bytes Diff.Schema Sqlite.RowsModel Sqlite.RowsProofs Sqlite.RowsWitness.
 From Atlas Require Diff.DiffModel Sqlite.PlanModel Sqlite.RowsBridge.
+From Atlas Require Import Sqlite.RowsPrefix.
 Import ListNotations.
 
 (** FULL STATEMENT (false of the faithful model, see 1a): for every database [d], change set
@@ -111,6 +112,21 @@ Theorem C05_copy_new_columns :
                (kept m c = None -> v' = rc_defval c).
 Proof. exact (C05_copy_new_columns_lemma conv genv). Qed.
 
+(** 7. Plans that stop in the middle (no transaction: --tx-mode none, or a caller without one):
+    after every prefix of the plan -- statement k+1 was refused, or the process was killed --
+    tables outside the change set are identical and the rows of every modified table are
+    [somewhere]: in the table itself (still untouched, or already carried over as in 1b), or,
+    between DROP TABLE t and RENAME, in new_t with the copied rows.  (Inside a transaction a
+    refused plan is rolled back: the database is unchanged by the atomicity of the engine.) *)
+Theorem C05_no_prefix_loses_rows :
+  forall d cs p d' k,
+  wf_changes cs -> pragma_effective d -> NoDup (names d) ->
+  PlanChanges cs = POk p -> exec_all conv genv d (firstn k p) = EOk d' ->
+  (forall n, ~ In n (flat_map touched cs) -> find_et n (d_tables d') = find_et n (d_tables d)) /\
+  (forall t m told, In (ModifyTable t m) cs -> NoDup (map rc_name (td_cols t)) ->
+     find_et (td_name t) (d_tables d) = Some told -> somewhere conv t m told d').
+Proof. exact (C05_no_prefix_loses_rows_lemma conv genv). Qed.
+
 End C05.
 
 (** 2'. The engine-side premise of 2 is necessary: inside a transaction that was opened with
@@ -167,6 +183,7 @@ Proof. exact RowsBridge.copy_cols_bridge_nil. Qed.
 
 Print Assumptions C05_rows_preserved_refuted.
 Print Assumptions C05_shared_planner_same_pairing.
+Print Assumptions C05_no_prefix_loses_rows.
 Print Assumptions C05_values_identical_refuted.
 Print Assumptions C05_rows_preserved_except.
 Print Assumptions C05_others_untouched.
@@ -231,3 +248,30 @@ Example C05_shared_planner_nonvacuous :
     [DiffModel.ModifyColumn sV 16; DiffModel.AddColumn sA]
   = Some [(sId, PlanModel.XCol sId); (sV, PlanModel.XIfNull sV [39; 100; 39]%N)].
 Proof. vm_compute. reflexivity. Qed.
+
+(** 7: a plan that is refused at its INSERT (a NULL in a column that becomes NOT NULL without a
+    default): the run stops there, the table still holds its two rows *)
+Definition w5_cs : list schange :=
+  [ModifyTable (mkTdef sT [col sId tyInt true; col sV tyText true] [] []) [ModifyColumn sV ChangeNull]].
+Example C05_no_prefix_loses_rows_nonvacuous :
+  exists p d' told,
+    wf_changes w5_cs /\ pragma_effective w2_db /\ NoDup (names w2_db) /\
+    PlanChanges w5_cs = POk p /\ run conv0 genv0 w2_db p = (d', Some ENotNull) /\
+    exec_all conv0 genv0 w2_db (firstn 2 p) = EOk d' /\
+    find_et sT (d_tables d') = Some told /\ find_et sT (d_tables w2_db) = Some told /\
+    length (et_rows told) = 2 /\
+    (* and one statement further in the plan of 1b (w2): between DROP and RENAME the rows are in new_t *)
+    exists p2 d2 tn, PlanChanges w2_cs = POk p2 /\ exec_all conv0 genv0 w2_db (firstn 4 p2) = EOk d2 /\
+      find_et sT (d_tables d2) = None /\ find_et (new_prefix ++ sT) (d_tables d2) = Some tn /\
+      length (et_rows tn) = 2.
+Proof.
+  eexists. eexists. eexists.
+  split; [unfold wf_changes; vm_compute; repeat constructor; simpl; intuition discriminate|].
+  split; [left; reflexivity|].
+  split; [vm_compute; repeat constructor; simpl; intuition discriminate|].
+  split; [vm_compute; reflexivity|]. split; [vm_compute; reflexivity|].
+  split; [vm_compute; reflexivity|]. split; [vm_compute; reflexivity|].
+  split; [vm_compute; reflexivity|]. split; [reflexivity|].
+  eexists. eexists. eexists. split; [vm_compute; reflexivity|]. split; [vm_compute; reflexivity|].
+  split; [vm_compute; reflexivity|]. split; [vm_compute; reflexivity|]. reflexivity.
+Qed.
